@@ -7,6 +7,7 @@ import (
 	"encoding/json"
 	"fmt"
 	"strings"
+	"unicode"
 
 	te "github.com/ricochet1k/termemu"
 )
@@ -204,7 +205,7 @@ func runCase(c *Case, d *driver, opts runOpts) (res caseResult) {
 		return
 	}
 	im.fe.probeLock = opts.probeLock
-	useModel := !opts.noModel && c.Mode == 0 && d != nil
+	useModel := !opts.noModel && d != nil
 	step := 0
 	addF := func(f finding) { f.Grid = c.Grid; res.Findings = append(res.Findings, f) }
 
@@ -238,6 +239,7 @@ func runCase(c *Case, d *driver, opts runOpts) (res caseResult) {
 	snapCheck("init", len(im.fe.events), len(im.be.written))
 
 	rng := newPrng(uint64(c.Chunk)*7919 + 17)
+	var gstate graphemeMergeState
 	prevSnap := im.vt.Snap()
 	var stepBytes []byte
 	compare := func(cmd string, tags *string) bool {
@@ -358,6 +360,28 @@ func runCase(c *Case, d *driver, opts runOpts) (res caseResult) {
 				if len(im.be.script) == 0 && im.vt.Buffered() == 0 {
 					cmd += " eof"
 				}
+				if c.Mode == 1 && len(stepBytes) > 0 && stepBytes[0] >= 32 && stepBytes[0] != 127 {
+					// grapheme mode: the model gets the run as clusters (uniseg, widths from uniseg,
+					// merge fragments classified here independently of the reader)
+					cmd = "grun " + graphemeRunTokens(stepBytes, &gstate)
+					if gstate.formatChar {
+						for _, pr := range []string{"C02", "C03"} {
+							addF(finding{Step: step, Kind: "monitor", Prop: pr, Clause: "zero-width-format-char", Tags: "t",
+								Detail: "grapheme mode: a zero-width cluster that is not a combining mark, ZWJ or variation selector (a format character such as U+00AD)"})
+						}
+						res.Cut = true
+						break
+					}
+					if gstate.forcedOdd {
+						// known finding: the cell now holds two clusters; the case ends here
+						for _, pr := range []string{"C02", "C03"} {
+							addF(finding{Step: step, Kind: "monitor", Prop: pr, Clause: "zwj-force-merge", Tags: "tm",
+								Detail: "grapheme mode: after a lone zero-width joiner the next cluster is merged into the previous cell even when it cannot join it (not pictographic); the cell text then tokenises into two clusters"})
+						}
+						res.Cut = true
+						break
+					}
+				}
 				if !compare(cmd, &tags) {
 					break
 				}
@@ -429,6 +453,53 @@ func snapCheckSafe(im *impl, step int, tags string, evFrom, wrFrom int, out *[]f
 	im.checkState(&snap, step, tags, out)
 	im.checkEvents(&snap, evFrom, wrFrom, step, tags, out)
 	im.checkAPI(&snap, step, tags, out)
+}
+
+// graphemeMergeState: what the classification of merge fragments remembers between runs.
+type graphemeMergeState struct {
+	forceNext  bool // the previous cluster was a lone zero-width joiner
+	forcedOdd  bool // a cluster that cannot join (not pictographic) was glued on after a lone ZWJ
+	formatChar bool // a zero-width cluster that is not an extender occurred
+}
+
+// graphemeRunTokens tokenises one printable run into extended grapheme clusters and classifies
+// merge fragments: a cluster made only of combining marks (Mn/Me), zero-width joiners or
+// variation selectors has no cell of its own and joins the cell left of the cursor; after a lone
+// ZWJ the next cluster joins as well.
+func graphemeRunTokens(run []byte, st *graphemeMergeState) string {
+	var parts []string
+	for _, cl := range graphemeClusters(string(run)) {
+		merge := st.forceNext
+		st.forceNext = false
+		only := func(pred func(rune) bool) bool {
+			for _, r := range cl.text {
+				if !pred(r) {
+					return false
+				}
+			}
+			return len(cl.text) > 0
+		}
+		switch {
+		case only(func(r rune) bool { return unicode.Is(unicode.Mn, r) || unicode.Is(unicode.Me, r) }):
+			merge = true
+		case only(func(r rune) bool { return r == 0x200d }):
+			merge = true
+			st.forceNext = true
+		case only(func(r rune) bool { return (r >= 0xfe00 && r <= 0xfe0f) || (r >= 0xe0100 && r <= 0xe01ef) }):
+			merge = true
+		}
+		w := cl.width
+		if w == 0 && !merge {
+			// a zero-width cluster that is no extender (format characters such as U+00AD)
+			st.formatChar = true
+		}
+		if merge && w > 0 {
+			// glued to the previous cell only because a lone ZWJ came before it
+			st.forcedOdd = true
+		}
+		parts = append(parts, fmt.Sprintf("%x:%d:%d", cl.text, w, b2i(merge)))
+	}
+	return strings.Join(parts, ",")
 }
 
 // peekTags gives a rough label for the bytes being processed when a step panicked.
